@@ -33,6 +33,8 @@ struct Config {
     int omp_threads = 1;          // team size of simulated parallel regions
     int omp_chunk_order = 0;      // dynamic loops: 0 ascending hand-out, 1 seeded (legal for schedule(nonmonotonic:dynamic))
     bool race_detect = true;
+    uint64_t random_steps = ~0ULL; // after this many scheduling steps the schedule degenerates to run-to-block without pre-emption or
+                                  // spurious wake-ups: the minimiser shrinks it, so a minimised replay has the shortest "interesting" prefix
     uint64_t step_cap = 2000000;  // scheduling steps
     uint64_t event_cap = 4000000000ULL; // instrumented memory events
 };
@@ -54,6 +56,7 @@ struct Result {
     uint64_t sync_hash = 0;       // projection on synchronisation events (interleaving measure)
     std::vector<Race> races;      // distinct (fnA, fnB, kind)
     std::map<std::string, long> counters;
+    std::map<std::string, long> omp_regions; // outlined region function -> times forked with a team > 1 (coverage of the parallel regions)
 };
 
 // Runs body() as task 0 under the scheduler and returns when every task has finished.
